@@ -23,19 +23,19 @@ Inductive hop :=
 | HAmoH (k : Z) (l : list lref)
 | HIneq (i : nat) (decomp : bool).          (* sm.pseudoboolencoding(x_i, decomp) *)
 
-Definition rlit (env : list value) (r : lref) : option ul :=
+Definition rlit (env : list pyval) (r : lref) : option ul :=
   match r with
   | LNew v s => Some (v, s)
   | LRef i => match get env i with Some (VLit v s) => Some (v, s) | _ => None end
   end.
-Fixpoint rlits (env : list value) (l : list lref) : option (list ul) :=
+Fixpoint rlits (env : list pyval) (l : list lref) : option (list ul) :=
   match l with
   | [] => Some []
   | r :: t => match rlit env r, rlits env t with Some x, Some xs => Some (x :: xs) | _, _ => None end
   end.
 
 (* the post a step performs (if any) and the value it binds; [None]: ill-typed reference *)
-Definition hstep (env : list value) (o : hop) : option (option post * value) :=
+Definition hstep (env : list pyval) (o : hop) : option (option post * pyval) :=
   match o with
   | HBind b => match step env b with Some v => Some (None, v) | None => None end
   | HNewVar v => Some (Some (PNewVar v), VLit v true)
@@ -47,8 +47,8 @@ Definition hstep (env : list value) (o : hop) : option (option post * value) :=
   | HIneq i d => match get env i with Some (VIneq q) => Some (Some (PIneq q d), VNone) | _ => None end
   end.
 
-Fixpoint run_hist (m : memory) (s : mgr) (env : list value) (ops : list hop)
-  : option (memory * mgr * list value * list status) :=
+Fixpoint run_hist (m : memory) (s : mgr) (env : list pyval) (ops : list hop)
+  : option (memory * mgr * list pyval * list status) :=
   match ops with
   | [] => Some (m, s, env, [])
   | o :: r =>
@@ -76,8 +76,8 @@ Definition hunfold (ts : list utree) (o : hop) : option utree :=
   end.
 
 (* the posts of a history with, for a posted inequality, the tree it was built from *)
-Fixpoint compile (env : list value) (ts : list utree) (ops : list hop)
-  : option (list (post * utree) * list value * list utree) :=
+Fixpoint compile (env : list pyval) (ts : list utree) (ops : list hop)
+  : option (list (post * utree) * list pyval * list utree) :=
   match ops with
   | [] => Some ([], env, ts)
   | o :: r =>
